@@ -33,6 +33,9 @@ def setup(rep, tier):
     rep.minimum('R19.2', 6)
     rep.minimum('R19.3', 3)
     rep.minimum('R19.4', 2)
+    rep.minimum('R19.5', 1)
+    rep.minimum('R19.6', 1)
+    rep.minimum('R19.7', 1)
 
 
 def r19_12(rep, prog):
@@ -245,7 +248,176 @@ def r19_4(rep, prog):
     (rep.holds if ok else rep.violated)('R19.4', '%s:soft_clip flag has no other reader' % prog.config, where, '%d uses' % len(others), **({} if ok else {'key': 'softclip-uses'}))
 
 
+def r19_5(rep, prog):
+    """the soft clipper's memory: declip_mem[c] receives 0 unless the clipping
+    loop was left because an excursion ran to the end of the frame (curr == N).
+    Reaching definitions of the coefficient local along each loop exit."""
+    if not prog.has_fn('opus_pcm_soft_clip'):
+        rep.holds('R19.5', '%s: float API disabled, opus_pcm_soft_clip not built' % prog.config, None, None)
+        return
+    f = prog.fn('opus_pcm_soft_clip')
+    cf = cfgm.CFG(f)
+    pm, pN = f.param_index('declip_mem'), f.param_index('N')
+    st = [(b, i, n) for b, i, n in cf.find(lambda n: n[0] == 'assign' and sx.kind(sx.strip_paren(n[1])) == 'idx' and sx.key(sx.strip(sx.strip_paren(n[1])[1])) == ('param', pm))]
+    if len(st) != 1 or sx.kind(sx.strip(st[0][2][2])) != 'local':
+        rep.unresolved('R19.5', 'expected one store `declip_mem[c] = <local>`', f.where())
+        return
+    sb, si, sn = st[0]
+    aid = sx.strip(sn[2])[2]
+    # definitions of the coefficient
+    defs = {}
+    for b, i, n in cf.find(lambda n: n[0] in ('assign', 'cassign') and sx.kind(sx.strip_paren(n[1] if n[0] == 'assign' else n[2])) == 'local'
+                           and sx.strip_paren(n[1] if n[0] == 'assign' else n[2])[2] == aid):
+        defs.setdefault(b, []).append((i, n))
+    # forward may-reaching definitions (block level; last def in a block kills)
+    OUT = {}
+    order = cf._rpo(cf.entry, cf.succ)
+    changed = True
+    while changed:
+        changed = False
+        for b in order:
+            inn = set()
+            for p_ in cf.pred[b]:
+                inn |= OUT.get(p_, set())
+            if b in defs:
+                last = max(defs[b], key=lambda t: t[0])[1]
+                out = {id(last)}
+                # a compound assignment does not kill: what reached it still contributes
+                if all(n_[0] == 'cassign' for i_, n_ in defs[b]):
+                    out |= inn
+            else:
+                out = inn
+            if OUT.get(b) != out:
+                OUT[b] = out
+                changed = True
+    byid = {id(n): n for lst in defs.values() for i, n in lst}
+    zero = {k for k, n in byid.items() if n[0] == 'assign' and sx.kind(sx.strip(n[2])) in ('int', 'flt') and float(sx.strip(n[2])[1]) == 0.0}
+    if sb in defs and any(i < si for i, n in defs[sb]):
+        rep.unresolved('R19.5', 'the coefficient is redefined in the block of the store', f.where())
+        return
+    nexits = 0
+    for p_ in cf.pred[sb]:
+        # facts on the edge p_ -> sb
+        atoms = [a for a, gb in guards.facts_at(cf, p_)]
+        c = cf.cond(p_)
+        dead = False
+        if c is not None:
+            from .. import decide
+            cv = decide.ev3(c, {})
+            for s_, pol in cf.edges(p_):
+                if s_ == sb and pol is not None:
+                    atoms += guards.atoms(c, pol)
+                    if cv is not None and bool(cv) != pol:
+                        dead = True        # exit edge of `while (1)`: never taken
+        if dead:
+            continue
+        reaching = OUT.get(p_, set())
+        to_end = any(a[0] == '==' and a[2] == ('param', pN) and a[1][0] == 'local' and not any(a2[0] == '==' and a2[1] != a[1] and a2[2] == ('param', pN) for a2 in []) for a in atoms)
+        # which local equals N: the scan index (no excursion found) or the resume position (excursion reached the end)
+        locs = {l['id']: l['name'] for l in f.locals.values()}
+        eqN = [locs.get(a[1][1], '?') for a in atoms if a[0] == '==' and a[2] == ('param', pN) and a[1][0] == 'local']
+        nexits += 1
+        inst = '%s:soft_clip loop exit under %s leaves %s in declip_mem' % (prog.config, eqN or [T.show_atom(a) for a in atoms][-1:], 'the continuing coefficient' if 'curr' in eqN else '0')
+        where = '%s:%s' % (f.file, cf.blocks[p_].get('term', {}).get('l') or sx.line(sn))
+        if 'curr' in eqN:
+            rep.holds('R19.5', inst, where, 'excursion reaches the end of the frame: the coefficient is carried over')
+        elif reaching and reaching <= zero:
+            rep.holds('R19.5', inst, where, 'only `a = 0` reaches the store along this exit')
+        else:
+            nz = [sx.show(byid[k])[:40] for k in reaching if k in byid and k not in zero] + ['(accumulated)' for k in reaching if isinstance(k, tuple)]
+            rep.violated('R19.5', inst, where, 'no excursion is pending on this exit, yet definitions %s reach `declip_mem[c] = a`: the next frame is altered although nothing clips' % nz[:3], key='declip-mem-stale')
+    if nexits < 2:
+        rep.unresolved('R19.5', 'expected two exits of the clipping loop, found %d' % nexits, f.where())
+
+
+def r19_67(rep, prog):
+    """R19.6 the gain loop covers exactly the interleaved samples of the frame
+    (same bound as the other whole-frame pcm loops: frame_size * st->channels);
+    R19.7 no audio that already went through the gain (a recursive
+    opus_decode_frame into a scratch buffer) is mixed into pcm before the gain
+    loop runs again."""
+    f = prog.fn('opus_decode_frame')
+    cf = cfgm.CFG(f)
+    ppcm, pfs = f.param_index('pcm'), f.param_index('frame_size')
+    gblocks = [b for b in cf.blocks if cf.cond(b) is not None and any(m[0] == 'field' and m[3] == 'decode_gain' for m in sx.walk(cf.cond(b)))]
+    outer = [b for b in gblocks if all(cf.dominates(b, o) for o in gblocks)]
+    if len(outer) != 1:
+        rep.unresolved('R19.6', 'gain branch not found')
+        return
+    g = outer[0]
+    region = T.controlled_region(cf, g, True)
+    bounds = []
+    for b in region:
+        c = cf.cond(b)
+        if c is not None and cf.blocks[b]['term'].get('kind') in ('ForStmt', 'WhileStmt'):
+            at = guards.atoms(c, True)
+            if len(at) == 1 and at[0][0] == '<':
+                bounds.append((b, at[0][2], c))
+    where = '%s:%s' % (f.file, cf.blocks[g]['term'].get('l'))
+    inst = '%s:gain loop covers frame_size * st->channels interleaved samples' % prog.config
+    if len(bounds) != 1:
+        rep.unresolved('R19.6', 'expected one loop in the gain region, found %d' % len(bounds), where)
+    else:
+        bk = bounds[0][1]
+
+        def flds(k, out):
+            if isinstance(k, tuple):
+                if k and k[0] == 'field':
+                    out.add(k[2])
+                for x in k:
+                    flds(x, out)
+            return out
+        fl = flds(bk, set())
+        uses_fs = any(True for _ in [0]) and ('param', pfs) in _subkeys(bk)
+        if fl == {'channels'} and uses_fs and bk[0] == 'bin' and bk[1] == '*':
+            rep.holds('R19.6', inst, where, 'bound `%s`' % sx.show(bounds[0][2]))
+        else:
+            rep.violated('R19.6', inst, where, 'bound `%s` is not frame_size * st->channels (fields used: %s): part of the interleaved frame is left unscaled or the loop overruns' % (sx.show(bounds[0][2]), sorted(fl)), key='gain-bound')
+    # R19.7
+    nrec = 0
+    for b, i, c in T.calls_to(cf, f.name):
+        out = sx.strip(c[2][3])
+        r, path = sx.lvalue_root(out)
+        if sx.kind(r) == 'param' and r[1] == ppcm:
+            continue            # decodes in place into the caller's buffer and returns: gained once by the inner call
+        nrec += 1
+        if sx.kind(r) != 'local':
+            rep.unresolved('R19.7', 'recursive call writes to `%s`' % sx.show(out), '%s:%s' % (f.file, sx.line(c)))
+            continue
+        lid = r[2]
+        # does the scratch buffer flow into pcm before the gain region?
+        mixed = []
+        for b2, i2, n in cf.find(lambda n: n[0] == 'call' and any(sx.kind(x) == 'local' and x[2] == lid for a in n[2] for x in sx.walk(a))
+                                 and any(sx.kind(sx.lvalue_root(sx.strip(a))[0]) == 'param' and sx.lvalue_root(sx.strip(a))[0][1] == ppcm for a in n[2])):
+            if sx.callee_name(n) != f.name and g in cf.reachable_from(b2):
+                mixed.append(n)
+        for b2, i2, n in cf.find(lambda n: n[0] == 'assign' and sx.kind(sx.lvalue_root(n[1])[0]) == 'param' and sx.lvalue_root(n[1])[0][1] == ppcm
+                                 and any(sx.kind(x) == 'local' and x[2] == lid for x in sx.walk(n[2]))):
+            if g in cf.reachable_from(b2):
+                mixed.append(n)
+        inst = '%s:audio decoded by the recursive call into %s is not gained twice' % (prog.config, r[1])
+        where2 = '%s:%s' % (f.file, sx.line(c))
+        if mixed:
+            rep.violated('R19.7', inst, where2, 'the recursive opus_decode_frame already applies decode_gain to %s; it is then mixed into pcm by `%s` and the gain loop scales it again (transition samples come out at gain^2)' %
+                         (r[1], sx.show(mixed[0])[:60]), key='opus_decode_frame:%s:double-gain' % r[1])
+        else:
+            rep.holds('R19.7', inst, where2, 'buffer does not reach pcm before the gain loop')
+    if not nrec:
+        rep.holds('R19.7', '%s:no recursive decode into a scratch buffer' % prog.config, f.where(), None)
+
+
+def _subkeys(k):
+    out = set()
+    if isinstance(k, tuple):
+        out.add(k)
+        for x in k:
+            out |= _subkeys(x)
+    return out
+
+
 def check(rep, prog, tier):
+    r19_5(rep, prog)
+    r19_67(rep, prog)
     r19_12(rep, prog)
     r19_3(rep, prog)
     r19_4(rep, prog)
